@@ -108,6 +108,11 @@ def _make_field(ctx, spec, nvdim=None, wide=None, p_sub=0.5, int_values=False):
     if nvdim is None:
         nvdim = int(gen.pick(rng, [1, 1, 2, 3, 3, 3, 4, 5, 6]))
     labels = ig.rand_labels(rng, nvdim)
+    if nvdim > 1 and rng.random() < 0.15:
+        # "any labels without spaces": punctuation inside a label (dm/dt, m.x, a-b, B^2)
+        base = [ig.rand_identifier(rng) for _ in range(nvdim)]
+        labels = [b + gen.pick(rng, ["-", "/", ".", "#", "+", "^", "*"]) + "xyzt"[j % 4] + str(j)
+                  for j, b in enumerate(base)]
     unit = gen.pick(rng, ig.UNITS)
     n = tuple(int(k) for k in spec.n)
     if int_values:
@@ -146,6 +151,14 @@ def roundtrip(ctx, tmp):
         fn = os.path.join(tmp, f"f_{rep}{gen.pick(rng, EXTS)}")
         what = {"representation": rep, **what0}
         try:
+            if rng.random() < 0.3:
+                # history: the file name was used before, for a field on another mesh with
+                # a subregion of its own
+                old_mesh = df.Mesh(p1=(0, 0, 0), p2=(2, 2, 2), n=(2, 2, 2),
+                                   subregions={"old": df.Region(p1=(0, 0, 0), p2=(1, 2, 2))})
+                df.Field(old_mesh, nvdim=1, value=1.0).to_file(fn, representation=rep)
+                what["file_name_used_before"] = True
+                ctx.event("roundtrip.file_name_reused")
             f.to_file(fn, representation=rep)
             r = df.Field.from_file(fn)
         except Exception as e:  # noqa: BLE001
